@@ -16,6 +16,7 @@ RULE = ('Hypothesis experiment frames with a cost column in both scenarios (fixe
         'test/cooldown, total incremental cost >= 1; variable: cost >= 1/64 everywhere with a planted cost lift), default '
         'and post-analysis-colab layouts (key_group=assignment, labels 2/1/-1, period -1 rows, date gaps), with/without '
         'cooldown, tails in {1,2}, level in [0.55,0.99], drawn threshold, random_state, nsims in {500,2000}, unit factors '
+        '2^k; in half of the cases the model object was first fitted to (and asked about) a frame of the other cost scenario; '
         '2^k. Non-trivial = both groups present, scenario detected as planted and (variable only) cost effect at least 20 '
         'posterior scales from 0 with n_pre >= 10; distinct by spec hash.')
 BUDGET = {'quick': 640, 'thorough': 20000}
@@ -43,6 +44,7 @@ def _spec(draw):
       'random_state': draw(st.integers(0, 2 ** 31 - 1)),
       'nsims': draw(st.sampled_from([500, 2000])),
       'ka': draw(st.integers(-6, 6)), 'kb': draw(st.integers(-6, 6)),
+      'refit': draw(st.booleans()),
   }
 
 
@@ -103,7 +105,20 @@ def run(spec):
     if cpost.degenerate or fs['n_pre'] < 10 or not cpost.sigma2 > 0 or abs(cpost.loc[-1]) < 20 * cpost.scale[-1]:
       return {'viol': [], 'nt': False, 'cls': ['degenerate-incremental-cost'], 'dc': 1}
   try:
-    m = fit_model(df, kwargs, spec['use_cooldown'])
+    if spec.get('refit'):
+      # 'refit' flavour: the model object has already analysed a frame of the other cost scenario
+      other = dict(fs, cost=dict(fs['cost'], scenario='variable' if scen == 'fixed' else 'fixed'))
+      df_o, kw_o, _ = frames.materialise(other)
+      m = fit_model(df_o, kw_o, spec['use_cooldown'])
+      try:
+        _summ(m, spec)
+        m.estimate_pointwise_and_cumulative_effect(metric='tbr_cost') if spec['use_cooldown'] else None
+      except Exception:  # pylint: disable=broad-except
+        pass
+      m.fit(df, **kwargs)
+      cls.append('refit')
+    else:
+      m = fit_model(df, kwargs, spec['use_cooldown'])
     rep = _summ(m, spec)
     if len(rep) != 1:
       viol.append(('C07:report-rows', dict(det, rows=len(rep))))
